@@ -9,7 +9,7 @@ Inductive case :=
 | ATCase (k pid vaddr ppage : N) (o_vpage : N) (o_paddr : option N)
 | TLBCase (psize nsets nways vaddr : N) (o_set : option N)
           (addrs : list N) (fpid : N) (cached : list (N * N)) (o_left : list (N * N))
-| StackCase (k : N) (tr : list ev) (clean : bool).
+| StackCase (k ntlb : N) (tr : list ev) (clean : bool).
 
 Definition oeq := opt_eqb N.eqb.
 Definition pair_eqb (a b : N * N) : bool := (fst a =? fst b) && (snd a =? snd b).
@@ -23,7 +23,7 @@ Definition check_case (c : case) : bool :=
   | TLBCase psize nsets nways vaddr os addrs fpid cached lft =>
       oeq (tlb_set_id psize nsets vaddr) os &&
       list_eqb pair_eqb (filter (fun pg => negb (inval_match psize addrs fpid (fst pg) (snd pg))) cached) lft
-  | StackCase k tr clean =>
+  | StackCase k _ tr clean =>
       clean && match rev tr with EEnd :: r => negb (existsb is_end r) | _ => false end
   end.
 
@@ -42,5 +42,5 @@ Definition holds_on (c : case) : bool :=
          what is still cached was cached before *)
       forallb (fun pg => negb (inval_match psize addrs fpid (fst pg) (snd pg))) lft &&
       forallb (fun pg => existsb (pair_eqb pg) cached) lft
-  | StackCase k tr _ => accepts k tr
+  | StackCase k ntlb tr _ => accepts_stack ntlb k tr
   end.
